@@ -28,13 +28,13 @@ use std::{cmp, mem};
 
 /// Regexes used to parse custom commands.
 const CUSTOM_SQL_REGEXES: [&str; 7] = [
-    r"(?i)^ *SET SHARDING KEY TO '?([0-9]+)'? *;? *$",
-    r"(?i)^ *SET SHARD TO '?([0-9]+|ANY)'? *;? *$",
-    r"(?i)^ *SHOW SHARD *;? *$",
-    r"(?i)^ *SET SERVER ROLE TO '(PRIMARY|REPLICA|ANY|AUTO|DEFAULT)' *;? *$",
-    r"(?i)^ *SHOW SERVER ROLE *;? *$",
-    r"(?i)^ *SET PRIMARY READS TO '?(on|off|default)'? *;? *$",
-    r"(?i)^ *SHOW PRIMARY READS *;? *$",
+    r"(?i-u)^ *SET SHARDING KEY TO (?:'([0-9]+)'|([0-9]+)) *;? *$",
+    r"(?i-u)^ *SET SHARD TO (?:'([0-9]+|ANY)'|([0-9]+|ANY)) *;? *$",
+    r"(?i-u)^ *SHOW SHARD *;? *$",
+    r"(?i-u)^ *SET SERVER ROLE TO '(PRIMARY|REPLICA|ANY|AUTO|DEFAULT)' *;? *$",
+    r"(?i-u)^ *SHOW SERVER ROLE *;? *$",
+    r"(?i-u)^ *SET PRIMARY READS TO (?:'(on|off|default)'|(on|off|default)) *;? *$",
+    r"(?i-u)^ *SHOW PRIMARY READS *;? *$",
 ];
 
 /// Custom commands.
@@ -264,7 +264,8 @@ impl QueryRouter {
                 //
                 // I think this is faster than running the Regex engine 5 times.
                 match regex_list[matches[0]].captures(&query) {
-                    Some(captures) => match captures.get(1) {
+                    // The value is either quoted (group 1) or bare (group 2).
+                    Some(captures) => match captures.get(1).or_else(|| captures.get(2)) {
                         Some(value) => value.as_str().to_string(),
                         None => return None,
                     },
